@@ -263,16 +263,31 @@ package ring
 //@   ensures extCnt(op, a, n) == extCnt(op, b, n)
 //@   induction on n
 //@
+//@ # zoneCnt(op, s, n, zone): how many of the first n instances of s are in the given zone and in a NON-extending state
+//@ # (an extending instance gets a companion from its own zone, so it does not count towards the zone's quota)
+//@ pure func zoneCnt(op Operation, s []InstanceDesc, n int, zone string) int = n <= 0 ? 0 : zoneCnt(op, s, n - 1, zone) + ((s[n-1].Zone == zone && !Operation.ShouldExtendReplicaSetOnState(op, s[n-1].State)) ? 1 : 0)
+//@ lemma zoneCntPrefix(op Operation, a []InstanceDesc, b []InstanceDesc, n int)
+//@   property C01
+//@   requires 0 <= n && n <= len(a) && n <= len(b) && (forall j int :: 0 <= j && j < n ==> a[j] == b[j])
+//@   ensures forall zone string :: zoneCnt(op, a, n, zone) == zoneCnt(op, b, n, zone)
+//@   induction on n
+//@ # token owners carry the zone of their ring entry, and the zone list has no duplicates
+//@ pred zonesRep(r Ring) = (forall t uint32 :: in(t, r.ringInstanceByToken) ==> in(r.ringInstanceByToken[t].InstanceID, r.ringDesc.Ingesters) && r.ringDesc.Ingesters[r.ringInstanceByToken[t].InstanceID].Zone == r.ringInstanceByToken[t].Zone) &&
+//@      (forall a, b int :: 0 <= a && a < b && b < len(r.ringZones) ==> r.ringZones[a] != r.ringZones[b])
+//@
 //@ func Ring.findInstancesForKey
 //@   property C01 C05
 //@   requires ringRep(r) && len(r.ringTokens) > 0 && replicationFactor >= 1
 //@   ghost var prevI []InstanceDesc = havoc
 //@   loop 1 head prevI := instances
 //@   loop 1 end use extCntPrefix(op, prevI, instances, len(prevI))
+//@   loop 1 end use zoneCntPrefix(op, prevI, instances, len(prevI))
 //@   # without an instance filter every walked instance is returned: the target size is the replication factor plus one
 //@   # for each returned instance in an extending state, and (without zones) the walk only stops short of it when every
 //@   # token has been visited
 //@   loop 1 invariant accounting: instanceFilter == nil ==> len(instances) == distinctHosts.count && replicaSetSize == replicationFactor + extCnt(op, instances, len(instances))
+//@   # with zones: a zone's quota is charged exactly by the non-extending walked instances of that zone
+//@   loop 1 invariant zones: instanceFilter == nil && r.cfg.ZoneAwarenessEnabled && zonesRep(r) ==> (forall z int :: 0 <= z && z < len(r.ringZones) && r.ringZones[z] != "" ==> foundHostsPerZone[z] == zoneCnt(op, instances, len(instances), r.ringZones[z]))
 //@   at exit: assert accounting: instanceFilter == nil && r1 == nil ==> replicaSetSize == replicationFactor + extCnt(op, r0, len(r0))
 //@   at exit: assert complete: instanceFilter == nil && r1 == nil && !r.cfg.ZoneAwarenessEnabled ==> len(r0) >= min(maxInstances, replicaSetSize) || iterations >= len(r.ringTokens)
 //@   ensures  consistent: r1 == nil
